@@ -652,20 +652,16 @@ class Bond:
         df = 1.0
         df_settle_dt = discount_curve.df(settle_dt)
 
-        dt = self.cpn_dts[1]
-        if dt > settle_dt:
-            df = discount_curve.df(dt)
-            flow = self.cpn / self.freq
-            pv = flow * df
-            px += pv * pay_first_cpn
-
-        for dt in self.cpn_dts[2:]:
+        for dt in self.cpn_dts[1:]:
 
             # coupons paid on a settlement date are paid to the seller
             if dt > settle_dt:
                 df = discount_curve.df(dt)
                 flow = self.cpn / self.freq
                 pv = flow * df
+                if dt == self.ncd:
+                    # the next coupon is not received when ex-dividend
+                    pv = pv * pay_first_cpn
                 px += pv
 
         px += df
